@@ -178,6 +178,9 @@ def _is_exec(h):
 def check_quiescent_states(H):
     findings = []
     for h in H:
+        if h[0] == "predicate-mismatch":
+            findings.append(("state-predicates", "at quiescence " + h[2]))
+            break
         if h[0] in ("quiet", "final"):
             rs, ps = (h[2], h[3]) if h[0] == "quiet" else (h[1], h[2])
             if rs not in STABLE_RUN or ps not in STABLE_REP:
